@@ -23,6 +23,9 @@ def run(ctx):
                       "type shares the mutable default between the class and all instances)", floor=1)
     ctx.rule("R12.n", "param's own write-backs do not turn an inherited default into an instance value: no method of the namespace other than update/_update themselves writes back, through "
                       "update(), values taken from self_.values() -- which reports the class default for every parameter the instance never set, so the write-back stores it on the instance", floor=1)
+    ctx.rule("R12.p", "instance-copy model: _instantiate_param_obj and _instantiated_parameter interpreted abstractly (17 cases): the per-instance Parameter is a fresh object owned by the instance with "
+                      "its own empty watcher table, the class-level default, and its own container for every other mutable slot; it is created once and handed out only for an initialized instance of a "
+                      "per_instance Parameter whose class has not disabled instance Parameters", floor=1)
     ctx.rule("R12.m", "setter model: Parameter.__set__ interpreted abstractly on every combination (576) of route x constant/readonly x validation outcome x identity x reference mode x watchers x batching agrees with the specification of this property (see checks/setter_model.py)", floor=1)
     ctx.rule("R12.k", "constructor model: Parameters._setup_params (with _instantiate_param) interpreted abstractly on 288 combinations of keywords x reference modes (plain value / reference with a value / reference without a value yet / asynchronous reference) x an unknown keyword: own copy of every instantiate=True default and pinned constants before any keyword is applied (and still there when a keyword assigns nothing), exactly the specified assignments, every reference and only references recorded", floor=1)
     ctx.not_decided += ["order-dependent histories (whether the per-instance copy existed before a class-level change) -- the rules make them irrelevant but the behavioural statement is not executed"]
@@ -251,6 +254,9 @@ def run(ctx):
                  input="class A: x = Parameter([1], instantiate=True); class B(A): x = ListSelector(objects=[..]) -> B().x is B.x")
     else:
         ctx.ok("R12.l", pi, loop, "4/4: instantiate is inherited from the ancestor whatever the type relation")
+
+    from checks import instcopy_model
+    instcopy_model.report(ctx, "R12.p")
 
     # model-level rule, run last (see DESIGN §10)
     from checks import setter_model
